@@ -548,9 +548,12 @@ carquet_status_t carquet_page_writer_finalize(
             }
         }
     } else {
-        carquet_buffer_append(&uncompressed,
-                               writer->values_buffer.data,
-                               writer->values_buffer.size);
+        carquet_status_t val_status = carquet_buffer_append(
+            &uncompressed, writer->values_buffer.data, writer->values_buffer.size);
+        if (val_status != CARQUET_OK) {
+            carquet_buffer_destroy(&uncompressed);
+            return val_status;
+        }
     }
 
     *uncompressed_size = (int32_t)uncompressed.size;
@@ -647,9 +650,17 @@ carquet_status_t carquet_page_writer_finalize(
     thrift_write_struct_end(&enc);  /* End DataPageHeader */
     thrift_write_struct_end(&enc);  /* End PageHeader */
 
+    if (thrift_encoder_has_error(&enc)) {
+        carquet_buffer_destroy(&compressed);
+        return enc.status;
+    }
+
     /* Append compressed data after header */
-    carquet_buffer_append(&writer->page_buffer, compressed.data, compressed.size);
+    status = carquet_buffer_append(&writer->page_buffer, compressed.data, compressed.size);
     carquet_buffer_destroy(&compressed);
+    if (status != CARQUET_OK) {
+        return status;
+    }
 
     *page_data = writer->page_buffer.data;
     *page_size = writer->page_buffer.size;
